@@ -120,4 +120,4 @@ func (f fakeEncryptor) Decrypt(nonce, ciphertext, additionalData []byte) ([]byte
 	return pt, nil
 }
 func (f fakeEncryptor) NonceSize() int { return f.nsize }
-func (f fakeEncryptor) Key() key.Key  { return f.k }
+func (f fakeEncryptor) Key() key.Key   { return f.k }
